@@ -307,11 +307,11 @@ func transcriptCheck(r *Run, in *instance) {
 	})
 	w := walkVerifier(in, walkOpts{Wrapper: "verifier", Cap: capPlain, Field: true, PermGL: true, PermBN: true, NoShape: true, Extra: extra})
 	if w.Panic != "" || w.Err != nil {
-		r.Infra("walk %s failed: %s %v", in.Name, w.Panic, w.Err)
+		walkFailed(r, in, "verifier", w)
 		return
 	}
 	if got == nil || pih == nil {
-		r.Infra("%s: GetChallenges was not called", in.Name)
+		r.addViolationStructural("transcript not derived", fmt.Sprintf("%s: Verify does not derive its challenges through GetChallenges / the public-input hash", in.Name))
 		return
 	}
 	e := w.E
@@ -375,7 +375,7 @@ func transcriptCheck(r *Run, in *instance) {
 		add(fmt.Sprintf("public_inputs_hash[%d]", i), (*pih)[i], rhash[i])
 	}
 	if len(got.PlonkBetas) != len(want.Betas) || len(got.PlonkGammas) != len(want.Gammas) || len(got.PlonkAlphas) != len(want.Alphas) || len(got.FriChallenges.FriBetas) != len(want.Fri.Betas) || len(got.FriChallenges.FriQueryIndices) != len(want.Fri.QueryIndices) {
-		r.Infra("%s: numbers of challenges differ from the reference", in.Name)
+		r.addViolationStructural("number of challenges", fmt.Sprintf("%s: the verifier draws %d/%d/%d PLONK challenges, %d FRI betas and %d query indices; plonky2's transcript has %d/%d/%d, %d and %d", in.Name, len(got.PlonkBetas), len(got.PlonkGammas), len(got.PlonkAlphas), len(got.FriChallenges.FriBetas), len(got.FriChallenges.FriQueryIndices), len(want.Betas), len(want.Gammas), len(want.Alphas), len(want.Fri.Betas), len(want.Fri.QueryIndices)))
 		return
 	}
 	for i := range want.Betas {
